@@ -137,6 +137,39 @@ fn check_state(
 			return false;
 		}
 	}
+	// validate_tx probes ("will let transactions spend"): the transactions of the world's blocks, judged against the
+	// replayed state — every input unspent here (with the features the input declares, if it declares any), no output
+	// re-creating a commitment that is unspent here
+	let n_blocks = h.blocks.len();
+	for _ in 0..4.min(n_blocks) {
+		let b = &h.blocks[prng.usize_below(n_blocks)].block;
+		if b.inputs().is_empty() || !h.blocks.iter().any(|x| x.hash == b.hash() && x.verdict.is_ok()) {
+			continue;
+		}
+		let outs: Vec<_> = b.outputs().iter().filter(|o| !o.is_coinbase()).cloned().collect();
+		let kerns: Vec<_> = b.kernels().iter().filter(|k| !k.is_coinbase()).cloned().collect();
+		if kerns.iter().any(|k| matches!(k.features, grin_core::core::KernelFeatures::NoRecentDuplicate { .. })) {
+			continue;
+		}
+		let tx = grin_core::core::Transaction::new(b.inputs(), &outs, &kerns);
+		let inputs_ok = vcommon::ledger::inputs_vec(&tx.inputs()).iter().all(|(c, f)| match st.utxo.get(c) {
+			Some(&i) => f.map(|f| f == st.outs[i].features).unwrap_or(true),
+			None => false,
+		});
+		let outputs_ok = outs.iter().all(|o| !st.utxo.contains_key(&o.commitment()));
+		let want = inputs_ok && outputs_ok;
+		let got = chain.validate_tx(&tx).is_ok();
+		out.probes += 1;
+		run.count(if want { "validate_tx_probes.spendable" } else if !inputs_ok { "validate_tx_probes.input_not_unspent" } else { "validate_tx_probes.output_duplicates_unspent" }, 1);
+		if got != want {
+			run.violation(
+				&format!("C02;{};validate_tx_probe;node={};ref={};inputs_unspent={};outputs_fresh={}", ctx, got, want, inputs_ok, outputs_ok),
+				&format!("validate_tx on the transaction of block {} says acceptable={} but the replayed unspent set says {} (inputs unspent: {}, outputs not duplicating an unspent commitment: {})", b.hash(), got, want, inputs_ok, outputs_ok),
+				replay.clone(),
+			);
+			return false;
+		}
+	}
 	true
 }
 
@@ -633,6 +666,9 @@ fn main() {
 	if !san {
 		run.require("block_deliveries_checked", d, run.tier.pick(200, 2000));
 		run.require("reorgs_observed", reorgs.load(Ordering::SeqCst), run.tier.pick(10, 100));
+		run.require("validate_tx_probes.spendable", run.counter("validate_tx_probes.spendable"), run.tier.pick(40, 400));
+		run.require("validate_tx_probes.input_not_unspent", run.counter("validate_tx_probes.input_not_unspent"), run.tier.pick(150, 1500));
+		run.require("validate_tx_probes.output_duplicates_unspent", run.counter("validate_tx_probes.output_duplicates_unspent"), run.tier.pick(3, 30));
 		for k in ["double_spend", "spend_never_created", "spend_fork_foreign", "duplicate_unspent_commitment"] {
 			run.require(&format!("forged_rejected.{}", k), *m.get(k).unwrap_or(&0), run.tier.pick(3, 30));
 		}
